@@ -1588,7 +1588,15 @@ void SPxMainSM<R>::MultiAggregationPS::execute(VectorBase<R>& x, VectorBase<R>& 
       z = 0.0;
 
    x[m_j] = z * scale / aij;
-   s[m_i] = 0.0;
+   s[m_i] = m_const;
+
+   // the other rows that contained x_j were rewritten without it and their sides were shifted by the constant part
+   // m_const / aij of x_j; their activities in the original LP contain that part again
+   for(int k = 0; k < m_col.size(); ++k)
+   {
+      if(m_col.index(k) != m_i)
+         s[m_col.index(k)] += m_col.value(k) * (m_const / aij);
+   }
 
 #ifndef NDEBUG
 
